@@ -213,6 +213,26 @@ def boundary_cases(vidx=0):
                               ('0.05 g/g', '5 g', 'accept', 'reachable'), ('0.5 M', '5 g', 'accept', 'reachable')):
         add(f"create_solution_from,{tag}", Wx, [], {'op': 'create_solution_from', 'src': 'K', 'solute': 'nacl', 'conc': c,
                                                     'solvent': 'water', 'q': q, 'name': 'N'}, expect)
+    # 8. drained vessels: a container whose whole content was transferred away keeps its substances with amount 0.0
+    Wd2 = {'K': ('container', 'inf L', [('water', '10 mL'), ('nacl', '10 mmol')]),
+           'K2': ('container', 'inf L', [('water', '10 mL'), ('nacl', '10 mmol')]),
+           'V': ('container', 'inf L', [('water', '30 mL')]), 'Z': ('container', 'inf L', []), 'Z2': ('container', 'inf L', [])}
+    drain = [T('K', 'Z', '@volume'), T('V', 'Z2', '@volume')]
+    add('create_solution_from,drained-source', Wd2, drain,
+        {'op': 'create_solution_from', 'src': 'K', 'solute': 'nacl', 'conc': '0.5 M', 'solvent': 'water', 'q': '5 mL', 'name': 'N'},
+        'refuse')
+    add('create_solution_from,drained-solvent-container', Wd2, drain,
+        {'op': 'create_solution_from', 'src': 'K2', 'solute': 'nacl', 'conc': '0.5 M', 'solvent': 'V', 'q': '5 mL', 'name': 'N'},
+        'refuse')
+    add('create_solution,drained-solvent-container', Wd2, drain,
+        {'op': 'create_solution', 'solute': 'nacl', 'solvent': 'V', 'name': 'N',
+         'kw': {'concentration': '0.1 M', 'total_quantity': '3 mL'}}, 'refuse')
+    for q in ('1 mL', '1 g', '1 mmol', '1 U'):
+        add(f"transfer,drained-source,unit={q.split()[1][-1]}", Wd2, drain, T('K', 'K2', q), 'refuse')
+    add('dilute,drained', Wd2, drain, {'op': 'dilute', 'obj': 'K', 'solute': 'nacl', 'conc': '0.1 M', 'solvent': 'water'}, 'refuse')
+    add('fill_to,drained', Wd2, drain, {'op': 'fill_to', 'obj': 'K', 'solvent': 'water', 'q': '5 mL'}, 'accept')
+    add('remove,drained', Wd2, drain, {'op': 'remove', 'obj': 'K', 'what': 'water'}, 'accept')
+    add('transfer,into-drained', Wd2, drain, T('K2', 'K', '1 mL'), 'accept')
     return cases
 
 
@@ -345,7 +365,10 @@ def _program_children(prog_idx):
             continue
         b = e2.bake(pp, vidx, program + [act])
         why = None
-        if not b['ok'] and b['phase'] == 'bake' and isinstance(b['exc'], ValueError):
+        if not b['ok'] and not isinstance(b['exc'], (ValueError, TypeError, RuntimeError)):
+            why = ('<recipe>', None, f"negative: {'bake()' if b['phase'] == 'bake' else 'adding the step'} raised "
+                                       f"{type(b['exc']).__name__}: {b['exc']} (a refusal is a ValueError)")
+        elif not b['ok'] and b['phase'] == 'bake' and isinstance(b['exc'], ValueError):
             # a recipe with a step that cannot be carried out stays refused however often bake() is called
             fp = e1.exact_world(b['world'])
             for attempt in (2, 3):
@@ -393,7 +416,8 @@ def recipe_programs(col, pp, vidx, depth):
                     nxt.append(p + (ai,))      # an impossible state is reported once, where it first appears
                 if why:
                     act = voc[ai]
-                    kind = 'infeasible-accepted-on-rebake' if why[0] == '<recipe>' else \
+                    kind = 'wrong-exception' if 'a refusal is a ValueError' in why[2] else \
+                        'infeasible-accepted-on-rebake' if why[0] == '<recipe>' else \
                         'negative-contents' if 'negative' in why[2] else 'over-capacity'
                     sig = f"recipe {act['op']} | {kind} | step={e2.step_kind(act)}"
                     program = [voc[i] for i in p] + [act]
@@ -414,7 +438,9 @@ def replay_program(pp, case):
     out = []
     b = e2.bake(pp, case['vidx'], case['program'])
     act = case['program'][-1]
-    if not b['ok'] and b['phase'] == 'bake':
+    if not b['ok'] and not isinstance(b['exc'], (ValueError, TypeError, RuntimeError)):
+        out.append(V(f"recipe {act['op']} | wrong-exception | step={e2.step_kind(act)}", f"raised {type(b['exc']).__name__}", case))
+    elif not b['ok'] and b['phase'] == 'bake':
         for attempt in (2, 3):
             try:
                 b['recipe'].bake()
@@ -443,7 +469,7 @@ def run(col):
     col.rule = ("(a) state-sanity monitor (amounts >= 0, 0 <= volume <= capacity) on every object returned, and feasibility monitor "
                 "(a transfer / remove / fill_to that clearly fits must not raise; only ValueError/TypeError/RuntimeError are ever raised) along every "
                 "history of the full operation menu incl. infeasible requests, depth 2 (quick) / 3 (thorough), plus the "
-                "C01 geometry/unit sweeps; (b) boundary enumeration: for every operation and feasibility constraint the "
+                "C01 geometry/unit sweeps and C01's 48-action history alphabet to depth 3 / 4; (b) boundary enumeration: for every operation and feasibility constraint the "
                 "requests below / at / above the boundary, directly and as a recipe step, classified must-accept / "
                 "must-refuse(ValueError) / don't-care; (c) the same sanity judgement on every object handed out by the bake "
                 "of every recipe program over the E2 vocabulary, depth 2 (quick) / 3 (thorough). Non-trivial = distinct (feature, outcome) classes")
@@ -457,6 +483,9 @@ def run(col):
         e1.Explorer(pp, v, e1.W_DEFAULT, e1.seed_history_P(), alphabets.geometry_sweep(), MONS, 'G/S0').run(1, col)
         e1.Explorer(pp, v, e1.W_DEFAULT, e1.seed_history_P(), alphabets.unit_sweep(), MONS, 'U/S0').run(1, col)
         e1.Explorer(pp, v, W_CAP, [], capacity_alphabet(), MONS, 'K').run(3 if col.tier == 'quick' else 4, col)
+        # the transfer-heavy history alphabet of C01 (drained wells, pooled wells, same-plate transfers) under the same monitors
+        e1.Explorer(pp, v, e1.W_DEFAULT, e1.seed_history_P(), alphabets.history_alphabet(), MONS, 'H').run(
+            3 if col.tier == 'quick' else 4, col)
         recipe_programs(col, pp, v, 2 if col.tier == 'quick' else 3)
 
 
